@@ -80,6 +80,7 @@ type Unit struct {
 	initArrays map[string]Term
 	allocTypes map[int]types.Type
 	randomUUID map[Val]bool
+	strLenKnown map[string]bool
 	allocPC    map[int]Term
 	objinvDone map[string]bool
 	globalAxioms []string
@@ -742,8 +743,12 @@ func (u *Unit) storeHeap(fr *Frame, st *State, p *PtrV, v Val, where string) {
 		}
 	}
 	arr := u.heapArr(st, key, u.leafSort(p.Elem))
+	oldT := u.define(SelectA(arr, p.Base), "old_"+p.Path[len(p.Path)-1])
+	if fd != nil && fd.Counter {
+		u.oblige("counter.unit_step("+key+")", propsOfField(fd, "C20"), "", st.pc, Or(Eq(t, Arith("+", oldT, IntLit(1))), Eq(t, Arith("-", oldT, IntLit(1)))), where, "a counter field changes by steps of one")
+	}
 	st.heap[key] = u.define(StoreA(arr, p.Base, t), "H_"+p.Path[len(p.Path)-1])
-	u.event(fr, st, "store "+key, map[string]Val{"value": v, "base": &Scalar{T: p.Base, Typ: types.NewPointer(p.RTyp)}}, where)
+	u.event(fr, st, "store "+key, map[string]Val{"value": v, "old": &Scalar{T: oldT, Typ: p.Elem}, "base": &Scalar{T: p.Base, Typ: types.NewPointer(p.RTyp)}}, where)
 }
 
 // havocHeap replaces every non-immutable heap array by a fresh one.
@@ -800,7 +805,15 @@ func (u *Unit) constVal(c *ssa.Const) Val {
 	case constant.Bool:
 		return &Scalar{T: BoolLit(constant.BoolVal(c.Value)), Typ: t}
 	case constant.String:
-		return &Scalar{T: u.eng.strID(constant.StringVal(c.Value)), Typ: t}
+		id := u.eng.strID(constant.StringVal(c.Value))
+		if u.strLenKnown == nil {
+			u.strLenKnown = map[string]bool{}
+		}
+		if !u.strLenKnown[id.S] {
+			u.strLenKnown[id.S] = true
+			u.assume(TTrue, Eq(App(SInt, "LenOf", id), IntLit(int64(len(constant.StringVal(c.Value))))))
+		}
+		return &Scalar{T: id, Typ: t}
 	case constant.Int:
 		if sortOf(t) == SReal {
 			return &Scalar{T: Term{c.Value.ExactString() + ".0", SReal}, Typ: t}
